@@ -21,7 +21,7 @@ REPO = os.environ.get("VF_REPO", "/repo")
 BUILD = os.path.join(VERIF, ".build")
 SHIM_SRC = os.path.join(VERIF, "shim", "fsshim.c")
 SHIM_SO = os.path.join(BUILD, "fsshim.so")
-TARGET = os.path.join(BUILD, "target")
+TARGET = os.path.join(BUILD, "target" if REPO == "/repo" else "target-alt-" + hashlib.sha256(REPO.encode()).hexdigest()[:8])
 NCPU = min(16, os.cpu_count() or 4)
 
 U32MAX = 4294967295
